@@ -22,6 +22,8 @@ CLAIMED.update({
    text='For @dim arities 1-4, every @dimOrder permutation and index/dimension arguments from every C operator class, CBMC decides that the subscript emitted by the real translator equals the documented mixed-radix formula with every argument evaluated as a complete expression, stays inside [0, prod D) and is injective on in-range index tuples, for all run-time index and dimension values in the stated ranges.'),
  'C15': dict(level='translation_validation', engine=E2, technique=E2TECH, note=E2NOTE + ' For C15 CBMC\'s undefined-behaviour checks are off (both texts get the same bit-vector semantics) and the value ranges keep divisors non-zero; validity of the printed text as C and the parse-print fixpoint are concrete side checks.', design='5/C15',
    text='About a thousand C expressions and statements (every ordered pair of the 18 binary operators ungrouped and in both groupings; unary, dereference, subscript, ternary, comma, cast and literal forms incl. escaped quotes; assignments and increments; declarations; if/else chains with dangling else; loops; switch) are parsed and printed by the real occa printer; CBMC decides that original and printed text leave identical values in every output and variable for ALL values of the variables in the stated ranges. The printed text must compile wherever the original does and must print identically when parsed again.'),
+ 'C20': dict(level='translation_validation', engine=E2, technique=E2TECH, note=E2NOTE + ' Barrier kernels on launch-model backends run phase by phase (code between two barriers for all threads of a block, per-thread copies of the variables declared around the barriers); atomic builtins are the plain update under this sequential emulation.', design='5/C20',
+   text='A corpus of OKL kernels covering nested and sibling @outer/@inner loops, scalar and pointer arguments of several types, @restrict, helper functions, local declarations and control flow, @exclusive, @shared with @barrier (1-D and 2-D), @atomic, @max_inner_dims, @nobarrier, @simd_length, @tile (1-D, 2-D) and @dim/@dimOrder is translated by the real occa for all seven backends; CBMC decides that every output array equals what the sequential reading of the kernel leaves, for ALL array contents and scalar arguments in the stated sizes/ranges, and that no access leaves the arrays (bounds checks on objects of exactly the declared size).'),
 })
 NA = {}
 def load_na():
